@@ -6,8 +6,8 @@ MASK = lambda b: (1 << b) - 1
 
 
 class Walk:
-    def __init__(self, P, f, path):
-        self.P = P; self.f = f; self.path = path
+    def __init__(self, P, f, path, prune=True):
+        self.P = P; self.f = f; self.path = path; self.prune = prune
         self.env = {}        # inst id -> const int
         self.alias = {}      # phi inst id -> resolved valref on this path
         self.facts = []      # (valref_key, 'eq'|'ne', const)
@@ -105,7 +105,8 @@ class Walk:
                     self.taken[i.id] = want
                     cv = self.val(i.ops[0])
                     if cv is not None and cv != want:
-                        self.feasible = False; return
+                        self.feasible = False
+                        if self.prune: return
                     self._learn(i.ops[0], want)
                 elif i.op == 'switch' and n + 1 < len(self.path):
                     cv = self.val(i.ops[0]); nxt = self.path[n + 1]
@@ -212,3 +213,8 @@ def feasible_walks(P, f, unroll=0):
         if w.feasible:
             ws.append(w)
     return ws
+
+
+def structural_walks(P, f, unroll=1):
+    """all CFG paths (each back edge at most `unroll` times), without feasibility pruning: for rules about the shape of the code"""
+    return [Walk(P, f, p, prune=False) for p in f.paths(unroll=unroll)]
